@@ -231,52 +231,45 @@ def run(ctx):
         ck.bad('C12-D3', need[0], '%s.%s' % (need[1], need[2]), 'expected set update %s.%s not found in %s' % (need[1], need[2], need[0]))
     # acquisition loop decision table
     hacq = repo.func(hp.qual + '.acquire')
+    # every wait() on a pool condition is re-checked: the wait node lies on a CFG cycle (predicate loop)
+    for ci in (hp, cp):
+        for m in ci.methods.values():
+            mcfg = ctx.cfg(m)
+            for n in mcfg.nodes:
+                e = L.node_expr(n)
+                if e is None:
+                    continue
+                for c in U.calls(e, attr='wait'):
+                    if U.is_self_attr(c.func.value) and c.func.value.attr in fields[ci.qual]:
+                        back = mcfg.find_path(n, lambda x, n=n: x is n, edge_ok=lambda a, b, k: not k.startswith('x:'))
+                        ck.expect(back is not None, 'C12-D3', m.qual, 'self.%s.wait() inside a loop that re-tests the predicate' % c.func.value.attr,
+                                  'the condition wait is not in a loop: a woken waiter does not re-check, so it can create a connection '
+                                  'while the host is at its limit (or take one that a third client already took)', m.loc(c))
     loops = [n for n in walk_no_nested(hacq.node) if isinstance(n, ast.While)]
     if len(loops) != 1:
-        raise AnalysisError('HostPool.acquire: expected one acquisition loop')
-    loop = loops[0]
-    it = Interp(repo, hacq, body=loop.body)
-
-    def ref(v):
-        if v.T('self.ready'):
-            return 'reuse'
-        if v.ord('len(self.busy)', 'self.max_connections') == 'lt':
-            return 'create'
-        return 'wait'
-
-    def obs(o, truth):
-        val = norm_text(o.value) if o.value is not None else ''
-        eff = list(o.effects)
-        if o.kind == 'break' and 'connection' in ''.join(eff):
-            pass
-        # connection is an env-bound local: effects are empty for plain assignments
-        if o.kind == 'break':
-            return o._conn if hasattr(o, '_conn') else 'break'
-        if o.kind == 'fall' and any('.wait()' in e for e in eff):
-            return 'wait'
-        if o.kind == 'continue' and any('.wait()' in e for e in eff):
-            return 'wait'
-        return 'other:%s:%s' % (o.kind, ';'.join(eff))
-    # distinguish reuse/create by which assignment ran: interpret with a recording env
-    leaves = it.leaves()
-    table = {}
-    bad_rows = []
-    for o in leaves:
-        v = o.val
-        ready = v.get(('T', 'self.ready'))
-        cmpv = _ord(v, it.t('len(self.busy)'), it.t('self.max_connections'))
-        want = 'reuse' if ready else ('create' if cmpv == 'lt' else 'wait')
-        got = _acq_outcome(hacq, loop, o, it)
-        if got != want or (not ready and cmpv is None):
-            bad_rows.append('%s -> code %s, reference %s' % (fmt_val(v), got, want))
-    a, b = sorted([it.t('len(self.busy)'), it.t('self.max_connections')])
-    extra_atoms = {k for o in leaves for k in o.val} - {('T', 'self.ready'), ('ord', a, b)}
-    ck.expect(not bad_rows and not extra_atoms and len(leaves) >= 3, 'C12-D3', hacq.qual,
-              'acquisition table (%d rows): idle connection reused, else created iff len(busy) < max, else wait' % len(leaves),
-              'acquisition decision differs from the reference: %s %s' % ('; '.join(bad_rows[:3]), sorted(extra_atoms) or ''), hacq.loc(loop))
+        ck.bad('C12-D3', hacq.qual, 'acquisition loop', 'HostPool.acquire no longer chooses its connection in one predicate loop '
+               '(found %d while-loops): reuse / create-under-bound / wait cannot be re-evaluated after a wake-up' % len(loops), hacq.loc())
+        loops = []
+    for loop in loops:
+        it = Interp(repo, hacq, body=loop.body)
+        leaves = it.leaves()
+        bad_rows = []
+        for o in leaves:
+            v = o.val
+            ready = v.get(('T', 'self.ready'))
+            cmpv = _ord(v, it.t('len(self.busy)'), it.t('self.max_connections'))
+            want = 'reuse' if ready else ('create' if cmpv == 'lt' else 'wait')
+            got = _acq_outcome(hacq, loop, o, it)
+            if got != want or (not ready and cmpv is None):
+                bad_rows.append('%s -> code %s, reference %s' % (fmt_val(v), got, want))
+        a, b = sorted([it.t('len(self.busy)'), it.t('self.max_connections')])
+        extra_atoms = {k for o in leaves for k in o.val} - {('T', 'self.ready'), ('ord', a, b)}
+        ck.expect(not bad_rows and not extra_atoms and len(leaves) >= 3, 'C12-D3', hacq.qual,
+                  'acquisition table (%d rows): idle connection reused, else created iff len(busy) < max, else wait' % len(leaves),
+                  'acquisition decision differs from the reference: %s %s' % ('; '.join(bad_rows[:3]), sorted(extra_atoms) or ''), hacq.loc(loop))
     # busy.add(connection) after the loop, with the connection chosen in the loop
     adds = [c for c in U.calls(hacq.node, attr='add') if isinstance(c.func.value, ast.Attribute) and c.func.value.attr == 'busy']
-    okadd = len(adds) == 1 and adds[0].lineno > loop.end_lineno and isinstance(adds[0].args[0], ast.Name) and adds[0].args[0].id == 'connection'
+    okadd = len(adds) == 1 and bool(loops) and adds[0].lineno > loops[0].end_lineno and isinstance(adds[0].args[0], ast.Name) and adds[0].args[0].id == 'connection'
     rets = [r for r in walk_no_nested(hacq.node) if isinstance(r, ast.Return)]
     okadd = okadd and all(isinstance(r.value, ast.Name) and r.value.id == 'connection' for r in rets) and bool(rets)
     ck.expect(okadd, 'C12-D3', hacq.qual, 'busy.add(connection) after the loop; the same connection is returned',
